@@ -207,13 +207,30 @@ def main():
     ap.add_argument("--out", default="/tmp/sweep/results.jsonl")
     ap.add_argument("--jobs", type=int, default=16)
     ap.add_argument("--limit", type=int, default=0)
+    ap.add_argument("--recheck", default="", help="jsonl of earlier results: re-run only the mutants listed there with tests_green (or not caught)")
     a = ap.parse_args()
     jobs = []
+    want = None
+    if a.recheck:
+        want = set()
+        for l in open(a.recheck):
+            r = json.loads(l)
+            if r.get("tests_green", True) and not r.get("caught_by"):
+                want.add((r["file"], r["kind"], r["line"], r["before"], r["after"]))
     for rel in a.files.split(","):
         tree = ast.parse((SRC / rel).read_text())
         for kind, path, func in sites(tree):
             if a.ops and kind not in a.ops.split(","):
                 continue
+            if want is not None:
+                try:
+                    _, before, after = apply(tree, kind, path)
+                except Exception:  # noqa
+                    continue
+                node = locate(tree, path)
+                line = getattr(node[2], "lineno", None) or getattr(node[0], "lineno", 0)
+                if (rel, kind, line, before, after) not in want:
+                    continue
             jobs.append((rel, kind, path, func))
     if a.limit:
         import random
